@@ -146,6 +146,7 @@ fn alt_kind(m: &Msg) -> &'static str {
         Msg::Altered(_, Alter::FlipBit(_)) | Msg::Altered(_, Alter::FlipLast) => "bit flip",
         Msg::Altered(_, Alter::Trunc(_)) | Msg::Altered(_, Alter::TruncBy(_)) => "truncation",
         Msg::Altered(_, Alter::Extend(..)) => "extension",
+        Msg::Altered(_, Alter::NegateY(_)) => "a public key replaced by an equivalent one",
         Msg::Raw(_) => "substitution by a parallel session's message",
         Msg::Wire(..) => "substitution by another message of this session",
         Msg::Garbage(..) => "substitution by a constant string",
@@ -188,6 +189,13 @@ fn alterations_with(p: &Proto, k: usize, bit_granular: bool, par: &[Vec<u8>], pl
             let two = Msg::Altered(Box::new(a(Alter::FlipBit(m1 * 8 + 1))), Alter::FlipBit(m2 * 8 + 6));
             v.push(two.clone());
             v.push(Msg::Altered(Box::new(two), Alter::FlipBit((m1 + m2) / 2 * 8 + 3)));
+        }
+    }
+    // alterations with structure: a public key sent in the clear replaced by another key with the same DH output
+    // (P-256: the negated point; for 25519 the non-canonical twin - bit 255 set - is among the bit flips above)
+    if p.dh == refnoise::DhAlg::P256 {
+        for f in fm.iter().filter(|f| !f.encrypted && f.len == 65) {
+            v.push(a(Alter::NegateY(f.start)));
         }
     }
     // substitutions: every message of the parallel session, earlier messages of this session, constants
